@@ -422,7 +422,11 @@ class Negative(Term):
         self.term = self.term.replace_table(current_table, new_table)
 
     def get_sql(self, **kwargs: Any) -> str:
-        return "-{term}".format(term=self.term.get_sql(**kwargs))
+        term_sql = self.term.get_sql(**kwargs)
+        if isinstance(self.term, (ArithmeticExpression, Negative)) or term_sql.startswith("-"):
+            # the minus applies to the whole operand: -(a+b); "--" would start a comment: -(-a), -(-1)
+            term_sql = "({})".format(term_sql)
+        return "-{term}".format(term=term_sql)
 
 
 class ValueWrapper(Term):
